@@ -40,6 +40,12 @@ struct Expect {
     free_result: bool,
 }
 
+/// payload bytes: noise for most frames, protocol-looking content (another frame header, a fast-path header ...) for some
+fn payload_of(next: &mut impl FnMut() -> u8, n: usize) -> Vec<u8> {
+    let seed = u32::from_le_bytes([next(), next(), next(), next()]);
+    engine::src::expand(seed | 1, n)
+}
+
 /// Build the byte stream and the reference deframing.
 fn build(c: &Case) -> (Vec<u8>, Vec<Expect>) {
     let mut bytes = Vec::new();
@@ -64,7 +70,7 @@ fn build(c: &Case) -> (Vec<u8>, Vec<Expect>) {
                     break;
                 }
                 let n = *len as usize - 4;
-                let mut p: Vec<u8> = (0..n).map(|_| next()).collect();
+                let mut p: Vec<u8> = payload_of(&mut next, n);
                 if c.x224 && n >= 3 {
                     p[0] = 2;
                     p[1] = 0xF0;
@@ -120,7 +126,7 @@ fn build(c: &Case) -> (Vec<u8>, Vec<Expect>) {
                     break;
                 }
                 let n = l - hdr;
-                let p: Vec<u8> = (0..n).map(|_| next()).collect();
+                let p: Vec<u8> = payload_of(&mut next, n);
                 bytes.extend_from_slice(&p);
                 exp.push(Expect { end: bytes.len(), raw: false, sec: first >> 6, payload: p, reject: false, must_hold: must, free_result: false });
             }
